@@ -783,7 +783,7 @@ Section ModelPasses.
   Qed.
 
   Lemma dense_stride_ge size C : 0 < size -> C <= dense_stride size C.
-  Proof. intros H. unfold dense_stride. apply stride_ge; lia. Qed.
+  Proof. intros H. unfold dense_stride, ROW_ALIGN. apply stride_ge; lia. Qed.
 
   Lemma check_view_scoring K (t : table) : Forall (fun r => length r = K) t ->
     check_view dflt eqT (LRows KScoring K t)
@@ -988,3 +988,43 @@ Section AcceptedView.
     - apply (ravel_cell dflt (lcols o) (lstride o) st (ltable dflt o) r c); auto. rewrite ltable_rows. auto.
   Qed.
 End AcceptedView.
+
+(* ---------- buffer requests with flags ---------- *)
+Lemma land1_cases flags : (Z.land flags 1 = 0 \/ Z.land flags 1 = 1)%Z.
+Proof.
+  change 1%Z with (Z.ones 1). rewrite Z.land_ones by lia. rewrite Z.pow_1_r.
+  pose proof (Z.mod_pos_bound flags 2 ltac:(lia)). change (Z.ones 1) with 1%Z. lia.
+Qed.
+
+Lemma getbuffer_request_cases flags b :
+  (Z.land flags 1 = 1%Z -> getbuffer_request flags b = Err EBuffer) /\
+  (Z.land flags 1 = 0%Z -> getbuffer_request flags b = Ok b).
+Proof.
+  unfold getbuffer_request, PyBUF_WRITABLE. split; intros H; rewrite H; reflexivity.
+Qed.
+
+Section Requests.
+  Context {T : Type}.
+  Variable dflt : T.
+
+  Lemma model_buf_readonly (o : @lobj T) wraps L M b :
+    model_buf dflt o wraps L M = Ok b -> pb_readonly b = true.
+  Proof.
+    destruct o as [k l|k K t|k R pos maxi]; cbn [model_buf].
+    - destruct k; intros H; inversion H; reflexivity.
+    - destruct k; intros H; inversion H; reflexivity.
+    - destruct k; try (destruct (configure_all _ _ _ _); cbn [rbind]; intros H; inversion H; reflexivity).
+      intros H; inversion H; reflexivity.
+  Qed.
+
+  Lemma model_request_cases (o : @lobj T) wraps L M flags b :
+    model_buf dflt o wraps L M = Ok b ->
+    pb_readonly b = true /\
+    (Z.land flags 1 = 1%Z -> model_request dflt o wraps L M flags = Err EBuffer) /\
+    (Z.land flags 1 = 0%Z -> model_request dflt o wraps L M flags = Ok b).
+  Proof.
+    intros H. split; [exact (model_buf_readonly o wraps L M b H)|].
+    unfold model_request. rewrite H. cbn [rbind]. apply getbuffer_request_cases.
+  Qed.
+End Requests.
+
